@@ -1,6 +1,7 @@
 """C07 — saved header tables describe the written file exactly (DESIGN §5 C07)."""
 from facts import is_node, walk, where, show
 import flow
+import report
 import pairing
 
 OST = "nifly::NiOStream"
@@ -417,6 +418,98 @@ def run(F, chk):
               "the header tables written by Put stay parallel to the block list through every header function that changes their "
               "length (a table left behind by Clear / AddBlock / DeleteBlock is written against a rebuilt type table)")
     chk.floor("R7.8", 15)
+
+    # ------------------------------------------------------------------ R7.9
+    R9 = chk.rule("R7.9", "the place of the size table recorded while a header is written (NiHeader::blockSizePos, set by Put only for "
+                          "the versions that have the table) never survives the save that recorded it: every NifFile function that "
+                          "writes the header returns with the position reset or known to be unset — a later save of a version "
+                          "without the table would patch block sizes over its type table at the stale offset")
+    posw = [g for g in F.fns.values() if g.get("cls") == "nifly::NiHeader" and g.get("body") and any(
+        x["k"] in ("Assign", "OpCall") and (x.get("op") == "=") and is_node((x.get("l") if x["k"] == "Assign" else (x.get("args") or [None])[0])) and
+        (x.get("l") if x["k"] == "Assign" else x["args"][0]).get("k") == "Member" and
+        (x.get("l") if x["k"] == "Assign" else x["args"][0]).get("name") == "blockSizePos" for x in walk(g["body"]))]
+    resetters, setters = set(), set()
+    for g in posw:
+        for x in walk(g["body"]):
+            tgt = x.get("l") if x["k"] == "Assign" else ((x.get("args") or [None])[0] if x["k"] == "OpCall" and x.get("op") == "=" else None)
+            if is_node(tgt) and tgt.get("k") == "Member" and tgt.get("name") == "blockSizePos":
+                src = x.get("r") if x["k"] == "Assign" else x["args"][1]
+                while is_node(src) and src["k"] in ("Cast",):
+                    src = src["e"]
+                if is_node(src) and src["k"] == "Construct" and not src.get("args"):
+                    resetters.add(g["id"])
+                else:
+                    setters.add(g["id"])
+    resetters -= setters
+    if not setters or not resetters:
+        raise report.Broken("R7.9: no function records / resets NiHeader::blockSizePos (setters %s, resetters %s)" % (sorted(setters), sorted(resetters)))
+
+    def _pos_expr(fn):
+        ids = set()
+        for d in walk(fn["body"]):
+            if d["k"] == "Decl":
+                for v in d.get("vars", []):
+                    i = v.get("init")
+                    while is_node(i) and i["k"] in ("Cast", "Construct") and (i.get("e") is not None or len(i.get("args", [])) == 1):
+                        i = i["e"] if i.get("e") is not None else i["args"][0]
+                    if is_node(i) and i["k"] == "Call" and i.get("short") == "GetBlockSizeStreamPos":
+                        ids.add(v["id"])
+        return ids
+
+    n9 = 0
+    for fn in sorted(F.fns.values(), key=lambda f: f["id"]):
+        if fn.get("cls") != "nifly::NifFile" or not fn.get("body") or fn.get("tmpl") == "pattern":
+            continue
+        if not any(n["k"] == "Call" and n.get("fid") in setters for n in walk(fn["body"])):
+            continue
+        pos_ids = _pos_expr(fn)
+
+        def is_pos(e):
+            while is_node(e) and e["k"] == "Cast":
+                e = e["e"]
+            return is_node(e) and ((e["k"] == "Ref" and e.get("id") in pos_ids) or (e["k"] == "Call" and e.get("short") == "GetBlockSizeStreamPos"))
+
+        def is_unset(e):
+            while is_node(e) and e["k"] == "Cast":
+                e = e["e"]
+            return is_node(e) and e["k"] == "Construct" and not e.get("args")
+
+        class PosState(flow.Flow):
+            def on_node(self, n, st):
+                if st is None or n["k"] != "Call":
+                    return st
+                if n.get("fid") in setters:
+                    return st | {("O", "blockSizePos recorded")}
+                if n.get("fid") in resetters:
+                    return frozenset(f for f in st if f != ("O", "blockSizePos recorded"))
+                return st
+
+            def cond(self, e, st):
+                t, f = flow.Flow.cond(self, e, st)
+                op, a, b = None, None, None
+                if is_node(e) and e["k"] == "Binary" and e["op"] in ("==", "!="):
+                    op, a, b = e["op"], e["l"], e["r"]
+                elif is_node(e) and e["k"] == "OpCall" and e.get("op") in ("==", "!=") and len(e.get("args", [])) == 2:
+                    op, (a, b) = e["op"], e["args"]
+                if op and ((is_pos(a) and is_unset(b)) or (is_pos(b) and is_unset(a))):
+                    clear = lambda s_: s_ if s_ is flow.BOT or s_ is None else frozenset(x for x in s_ if x != ("O", "blockSizePos recorded"))
+                    if op == "==":
+                        t = clear(t)
+                    else:
+                        f = clear(f)
+                return t, f
+
+        ps = PosState(F, fn)
+        ps.run()
+        bad = [(k_, n_) for k_, n_, st in ps.exits if st is not None and st is not flow.BOT and ("O", "blockSizePos recorded") in st]
+        n9 += 1
+        chk.instance(R9, ok=not bad, sample={"fn": fn["name"], "exits": len(ps.exits), "position_tests": len(pos_ids)})
+        if bad:
+            chk.violation("R7.9", "C07/R7.9:%s" % fn["name"], where(fn, bad[0][1]),
+                          "%s writes the header (which records where the size table is) and can return without "
+                          "ResetBlockSizeStreamPos or a test that the position is unset: the next save of a version without a "
+                          "size table patches block sizes at the stale offset, over its type table" % fn["name"])
+    chk.floor(R9, 1)
 
     chk.assumptions += ["sizes are re-measured on every save and never taken from the model, so R7.1 + R7.3 decide the size table "
                         "clause up to uint32 overflow", "header Get/Put layout agreement is decided under C01 (R1.3)"]
